@@ -8,6 +8,8 @@ import Nstd.Avl.Model
     <c> find k | has k | count k | front | back | nop | wb | assign <src> | insall <src> | copy <src>
   Observation of the container touched, one line per op:
     <ret> c=<key comparisons of the op> n=<size> [| k:v k:v ...] [| p/c p/c ...] [# tree-with-fields ord ids free ids]
+  (`c=-` on copy / assign lines: how many comparisons a copy makes is not part of the tie; a copy-constructed container
+  prints its white-box part without item ids and free list from then on)
   the last part lists, for every key of the domain, the position `find` returns (e = end) and
   the number of comparisons it made.  A rejected op prints `bad-op`.
 -/
@@ -19,6 +21,9 @@ structure World where
   lo : Int := 0
   hi : Int := -1
   lvl : Nat := 2
+  /-- containers that were copy-CONSTRUCTED: how many items the copy constructor allocates at once is not part of the
+      property, so from then on their white-box part names items by key instead of by id and leaves the free list out -/
+  anon : List Bool := [false, false, false, false]
 
 def World.init : World := { cs := [St.init false, St.init true, St.init false, St.init true] }
 
@@ -40,26 +45,42 @@ def renderP (par : Option Nat) : Tree → String
     let ps := match par with | some p => toString p | none => "-"
     s!"({renderP (some i) l} {i}/{k}:{h}:{s}^{ps} {renderP (some i) r})"
 
-/-- white-box part of an observation (level 3): tree with parent links, prev/next list, free list -/
-def wbAll (s : St) : String :=
-  renderP none s.t ++ " ord" ++ String.join (s.order.map (fun i => s!" {i}")) ++
-    " free" ++ String.join (s.free.map (fun i => s!" {i}"))
+/-- the same without item ids (parent named by its key): `(left _/key:height:slope^kparent right)` -/
+def renderA (par : Option Int) : Tree → String
+  | .nil => "."
+  | .node _ k _ h s l r =>
+    let ps := match par with | some p => s!"k{p}" | none => "-"
+    s!"({renderA (some k) l} _/{k}:{h}:{s}^{ps} {renderA (some k) r})"
 
-def obs (w : World) (s : St) (o : Out) : String :=
-  let base := s!"{retStr o.ret} c={o.cmps} n={s.size}"
+/-- white-box part of an observation (level 3): tree with parent links, prev/next list, free list -/
+def wbAll (anon : Bool) (s : St) : String :=
+  if anon then
+    renderA none s.t ++ " ord" ++ String.join (s.iter.map (fun e => s!" k{e.1}")) ++ " free ~"
+  else
+    renderP none s.t ++ " ord" ++ String.join (s.order.map (fun i => s!" {i}")) ++
+      " free" ++ String.join (s.free.map (fun i => s!" {i}"))
+
+def obsG (w : World) (anon nocmp : Bool) (s : St) (o : Out) : String :=
+  let base := if nocmp then s!"{retStr o.ret} c=- n={s.size}" else s!"{retStr o.ret} c={o.cmps} n={s.size}"
   let it := if w.lvl ≥ 1 then " |" ++ String.join (s.iter.map (fun e => s!" {e.1}:{e.2}")) else ""
   let fs := if w.lvl ≥ 2 then
       " |" ++ String.join ((domKeys w.lo w.hi).map (fun k =>
         " " ++ (match s.findIdx k with | some p => toString p | none => "e") ++ "/" ++ toString (s.findCmps k)))
     else ""
-  let wb := if w.lvl ≥ 3 then " # " ++ wbAll s else ""
+  let wb := if w.lvl ≥ 3 then " # " ++ wbAll anon s else ""
   base ++ it ++ fs ++ wb
+
+def obs (w : World) (c : Nat) (s : St) (o : Out) : String := obsG w (w.anon.getD c false) false s o
 
 /-- white-box rendering of the tree with the item ids and stored fields:
     `(left id/key:height:slope right)` -/
 def render : Tree → String
   | .nil => "."
   | .node i k _ h s l r => s!"({render l} {i}/{k}:{h}:{s} {render r})"
+
+def renderAnon : Tree → String
+  | .nil => "."
+  | .node _ k _ h s l r => s!"({renderAnon l} _/{k}:{h}:{s} {renderAnon r})"
 
 def parseOp : List String → Option Op
   | ["ins", k, v] => do pure (.insert (← k.toInt?) (← v.toInt?))
@@ -97,8 +118,10 @@ def stepLine (w : World) (ws : List String) : World × String :=
       | none => (w, "bad-op")
       | some s =>
         match rest with
-        | ["nop"] => (w, obs w s ⟨.none, 0⟩)
-        | ["wb"] => (w, render s.t ++ " free" ++ String.join (s.free.map (fun i => s!" {i}")))
+        | ["nop"] => (w, obs w c s ⟨.none, 0⟩)
+        | ["wb"] =>
+          if w.anon.getD c false then (w, renderAnon s.t ++ " free ~")
+          else (w, render s.t ++ " free" ++ String.join (s.free.map (fun i => s!" {i}")))
         | [op, src] =>
           if op = "assign" ∨ op = "insall" ∨ op = "copy" then
             match src.toNat? with
@@ -115,21 +138,22 @@ def stepLine (w : World) (ws : List String) : World × String :=
                   let r := if op = "assign" then s.assignFrom sj
                            else if op = "copy" then (St.init s.multi).assignFrom sj
                            else s.insertAll sj
-                  (setC w c r.1, obs w r.1 ⟨.none, r.2⟩)
+                  let w' := if op = "copy" then { w with anon := w.anon.set c true } else w
+                  (setC w' c r.1, obsG w' (w'.anon.getD c false) (op ≠ "insall") r.1 ⟨.none, r.2⟩)
           else
             match parseOp rest with
             | none => (w, "bad-op")
             | some o =>
               match step s o with
               | none => (w, "bad-op")
-              | some r => (setC w c r.1, obs w r.1 r.2)
+              | some r => (setC w c r.1, obs w c r.1 r.2)
         | _ =>
           match parseOp rest with
           | none => (w, "bad-op")
           | some o =>
             match step s o with
             | none => (w, "bad-op")
-            | some r => (setC w c r.1, obs w r.1 r.2)
+            | some r => (setC w c r.1, obs w c r.1 r.2)
   | _ => (w, "bad-op")
 
 end Nstd.Avl
